@@ -18,7 +18,7 @@ from vlib.common import Ctx, pmap, rotate
 from vlib.corpus import exprs as X
 from vlib.fsmt.sem import Sem
 from vlib.fsmt.expr import ExprEnc, NotEncoded, fullparen, is_minus_one
-from vlib.fsmt.solve import check, check_robust, model_value
+from vlib.fsmt.solve import prove_equal
 from vlib.refparse import parse_fortran, parse_c, ast_to_z3, RefParseError
 from vlib import replay as RP
 
@@ -108,65 +108,60 @@ def build_family(tier):
 
 
 def make_env(sem):
-    env = {n: z3.Int(n) for n in 'abc'}
-    env.update({n: sem.real_const(n) for n in 'xyzs'})
+    env = {n: sem.int_var(n, BOUND) for n in 'abc'}
+    env.update({n: sem.real_const(n, BOUND) for n in 'xyzs'})
     env.update({n: z3.Bool(n) for n in 'pq'})
     return env
-
-
-def c_call(name, args):
-    return None
 
 
 def emit(tree, backend):
     return fgen(tree) if backend == 'fgen' else cgen(tree)
 
 
+class _IllTypedText(Exception):
+    pass
+
+
 def decide(tree, backend, real_mode='real', want_gap=False):
-    """returns (verdict, info).  verdict: unsat | sat | unparsable | notenc | unknown | illtyped"""
+    """returns (verdict, info).  verdict: unsat | sat | unparsable | notenc | unknown | illtyped | emit-error"""
     lang = 'fortran' if backend == 'fgen' else 'c'
-    sem = Sem(real_mode, lang=lang)
-    env = make_env(sem)
     try:
         text = emit(tree, backend)
     except Exception as ex:  # pylint: disable=broad-except
         return 'emit-error', {'error': repr(ex)}
     try:
-        t1 = ExprEnc(Sem.__new__(Sem) if False else sem, env).enc(tree)
-    except NotEncoded as ex:
-        return 'notenc', {'text': text, 'why': str(ex)}
-    except TypeError as ex:
-        return 'illtyped', {'text': text, 'why': str(ex)}
-    try:
         ast = parse_fortran(text) if lang == 'fortran' else parse_c(text)
     except RefParseError as ex:
         return 'unparsable', {'text': text, 'why': str(ex)}
+
+    def build(sem):
+        env = make_env(sem)
+        ur = sem.used_real
+        sem.used_real = False    # declaring real variables does not make the obligation real-valued
+        t1 = ExprEnc(sem, env).enc(tree)
+        try:
+            t2 = ast_to_z3(ast, sem, env)
+        except TypeError as ex:
+            raise _IllTypedText(str(ex)) from ex
+        return t1, t2, env
+
     try:
-        t2 = ast_to_z3(ast, sem, env)
+        res = prove_equal(build, real_mode=real_mode, lang=lang, timeout_ms=8000, want_gap=want_gap)
+    except NotEncoded as ex:
+        return 'notenc', {'text': text, 'why': str(ex)}
+    except _IllTypedText as ex:
+        return 'sat', {'text': text, 'why': f'text is ill-typed: {ex}', 'model': {}}
+    except TypeError as ex:
+        return 'illtyped', {'text': text, 'why': str(ex)}
     except (RefParseError, NotImplementedError) as ex:
         return 'unparsable', {'text': text, 'why': str(ex)}
-    except TypeError as ex:
-        return 'sat', {'text': text, 'why': f'text is ill-typed: {ex}', 'model': {}}
-    if t1.sort() != t2.sort():
-        if sem.is_bool(t1) or sem.is_bool(t2):
-            return 'sat', {'text': text, 'why': 'sort mismatch', 'model': {}}
-        t1, t2 = sem.to_real(t1), sem.to_real(t2)
-    ivars = [env[n] for n in 'abc']
-    cs = list(sem.defined) + [z3.And(v >= -BOUND, v <= BOUND) for v in ivars]
-    if real_mode == 'real':
-        cs += [z3.And(env[n] >= -BOUND, env[n] <= BOUND) for n in 'xyzs']
-    r, m, dt = check_robust(cs + [t1 != t2], ivars, BOUND, 8000)
-    info = {'text': text, 'solver_s': dt}
-    if r == 'sat':
-        if want_gap and not sem.is_bool(t1) and real_mode == 'real':
-            d = sem.to_real(t1) - sem.to_real(t2) if not sem.is_int(t1) else z3.ToReal(t1 - t2)
-            r2, m2, _ = check(cs + [z3.Or(d > z3.RealVal('1/4'), d < -z3.RealVal('1/4'))], 8000)
-            if r2 == 'sat':
-                m = m2
-        info['model'] = {n: model_value(m, v) for n, v in env.items()}
-        info['tree_value'] = model_value(m, t1)
-        info['text_value'] = model_value(m, t2)
-    return r, info
+    info = {'text': text, 'solver_s': res['seconds'], 'structural': res['structural'], 'mode': res['mode']}
+    if res['verdict'] == 'sat':
+        info['model'] = res['model']
+        info['tree_value'] = res.get('v1')
+        info['text_value'] = res.get('v2')
+        info['why'] = res.get('why')
+    return res['verdict'], info
 
 
 def _node_name(e):
@@ -301,6 +296,7 @@ def run(tier, seed):
     sigcache = {}
     per_sig_replayed = {}
     uf_ok = uf_diff = 0
+    modes = {}
     for i, res in results:
         kind, tree = FAMILY[i]
         for backend, v, info, uf in res:
@@ -310,6 +306,8 @@ def run(tier, seed):
                 continue
             ctx.verdict(v)
             ctx.obligation(f'{backend}:{X.show(tree)}')
+            mode = 'structural(t!=t)' if info.get('structural') else info.get('mode', '?')
+            modes[mode] = modes.get(mode, 0) + 1
             if uf == 'unsat':
                 uf_ok += 1
             elif uf is not None:
@@ -339,6 +337,7 @@ def run(tier, seed):
     ctx.extra['uf_pass'] = {'real_trees_equal_under_uninterpreted_arithmetic': uf_ok,
                             'equal_over_reals_only(fp-reassociation, not a violation)': uf_diff}
     ctx.extra['family_size'] = len(FAMILY)
+    ctx.extra['queries_by_encoding'] = modes
     return ctx.finish()
 
 
